@@ -609,6 +609,32 @@ func (te *TEnv) call(x *ECall) TV {
 			fr := &frame{vc: vc}
 			return TV{t: fr.makeIface(t, Val{t: a.t}), sort: sortIface}
 		}
+	case "quad4":
+		// quad4(a, b, c, d): the collections.Quad key with these components (instance chosen by sorts)
+		if need(4) {
+			as := []TV{arg(0), arg(1), arg(2), arg(3)}
+			var names []string
+			for n := range reg.structs {
+				names = append(names, n)
+			}
+			sort.Strings(names)
+			for _, n := range names {
+				si := reg.structs[n]
+				if si.named == nil || !isTupleKey(si.named) || len(si.fields) != 4 {
+					continue
+				}
+				ok := true
+				for i := range as {
+					if si.fields[i].sort != as[i].sort {
+						ok = false
+					}
+				}
+				if ok {
+					return TV{t: "(" + ctor(si) + " " + as[0].t + " " + as[1].t + " " + as[2].t + " " + as[3].t + ")", sort: si.sort, gt: si.named}
+				}
+			}
+			return te.fail("quad4: no matching key type for sorts")
+		}
 	case "mk":
 		// mk("T", f1, f2, ...): struct value of type T
 		if len(x.Args) >= 1 {
